@@ -21,7 +21,7 @@ PLAN = {  # tier -> number of generated applications per class
     "thorough": {"free": 120, "inclass": 120},
 }
 BATCH = 40  # modules per workspace
-OPTIONAL_GENERATORS = [("gen_routes", "r"), ("gen_scopes", "s"), ("gen_errors", "e"), ("gen_mw", "w"), ("gen_own", "o"), ("gen_names", "n"), ("gen_generic", "x")]
+OPTIONAL_GENERATORS = [("gen_routes", "r"), ("gen_scopes", "s"), ("gen_errors", "e"), ("gen_mw", "w"), ("gen_own", "o"), ("gen_names", "n"), ("gen_generic", "x"), ("gen_deps", "d")]
 
 
 def _tool_hash():
